@@ -176,6 +176,31 @@ def handle(case):
                                'reps': [s.nr_of_repetitions for s in u.composite_operations]}
             u2 = u.apply_modifiers()
             out['unrolled_twice'] = {'ops': observe(u2), 'duration': ticks(u2.duration)}
+        if 'copy' in want:          # C05: explicit copy, implicit copy by nesting, independence in both directions
+            def wrap(structure):
+                d = DeclarativeCircuit()
+                d._structure = structure
+                return d
+            out['orig'] = {'ops': observe(Builder(case).build(case['prog'])), 'duration': 0}
+            c1 = Builder(case).build(case['prog'])
+            out['copy'] = {'ops': observe(wrap(c1.circuit_structure.copy())), 'duration': 0}
+            outer = DeclarativeCircuit()
+            outer.add(Builder(case).build(case['prog']))
+            out['nested'] = {'ops': observe(outer), 'duration': 0}
+            # mutate the original, watch the copy
+            c3 = Builder(case).build(case['prog'])
+            cp3 = wrap(c3.circuit_structure.copy())
+            before = observe(cp3)
+            c3.add(co.Wait(0, duration_strategy=FixedDurationStrategy(1.0)))
+            c3.apply_modifiers()
+            out['copy_unchanged'] = before == observe(cp3)
+            # mutate the copy, watch the original
+            c4 = Builder(case).build(case['prog'])
+            cp4 = wrap(c4.circuit_structure.copy())
+            before = observe(c4)
+            cp4.add(co.Wait(0, duration_strategy=FixedDurationStrategy(1.0)))
+            cp4.apply_modifiers()
+            out['orig_unchanged'] = before == observe(c4)
         if 'cleared' in want:      # diagnostic: same observations with both memo tables cleared before each
             c4 = Builder(case).build(case['prog'])
             clear_caches()
